@@ -79,6 +79,44 @@ PROPS = {
         "level_text": "Definition, supported codes, code agreement, 'valid iff hash of this value under the hash's own algorithm' and content addressing (modulo explicit collision) proved generically in the hash functions; base64url and multihash round trips proved; decoder leniency modelled and shown harmless because validation compares encoded strings. Correspondence with real SHA-2 computed in Gallina.",
         "technique": "Coq proof + differential correspondence with Gallina SHA-2",
     },
+    "C10": {
+        "props": "theories/Props/C10.v",
+        "agree": ["theories/Agree/AgreeTables.v"],
+        "trusted_base": COMMON_TB + [
+            "json-patch v4.1.0 is mirrored from its source (tree model; exact since applyJSON applies operations one at a time) and compared with an independent RFC 6902 executable spec; deviations of the library are listed findings, identified by operation kind",
+            "Go map semantics: documents are association lists compared modulo member order",
+        ],
+        "assumptions": ["patches are validated (generator keeps only patches the real validator accepts)"],
+        "rule": "starting documents with 0-3 keys/services/aka and further members; 1-4 validated patches over all eight actions with ids that collide with, overlap or miss existing entries, later patches aimed at the implementation's own intermediate result; every 10th case is a labelled RFC 6902 deviation probe. Result compared with the documented semantics (RFC 6902 for ietf-json-patch) and, where that differs, with the library mirror.",
+        "clauses": {"1": "result differs from the documented per-action semantics", "2": "unique ids in, duplicate ids out"},
+        "level_text": "Fold structure, per-action id semantics (insert-or-replace keeping order, delete ignoring unknown ids, ordered set union/difference, replace installs exactly) and preservation of id uniqueness over any list of validated patches proved (the latter using the C11 frame theorem). RFC 6902 conformance of the third-party library is refuted with witnesses (known findings); the composer's own semantics is checked by correspondence against the RFC spec.",
+        "technique": "Coq proof (induction over patch lists) + refutation witnesses + differential correspondence against an RFC 6902 spec",
+    },
+    "C11": {
+        "props": "theories/Props/C11.v",
+        "agree": [],
+        "trusted_base": COMMON_TB + [
+            "json-patch v4.1.0 mirrored as a tree model (its findObject ignores the text before the first '/', Atoi index forms, nil handling, panics) - pinned by go.sum",
+        ],
+        "assumptions": [],
+        "rule": "a document with keys, services, decoy members and arrays x six operation kinds x 31 pointer spellings (protected members, elements, sub-members, '-' index, prefix-sharing siblings, ~0/~1 escapes, unrooted, empty, root, case variants) as path and as from, plus copy/move out of a protected member followed by an edit of the copy. Oracle on the implementation: validated and applied => publicKey and service unchanged.",
+        "clauses": {"1": "a validated ietf-json-patch changed publicKey or service", "2": "validation verdict differs from the model", "4": "applied result differs from the model"},
+        "level_text": "Frame theorem proved for all documents, operation lists and pointer spellings on the mirror of the pinned library: validated => publicKey and service members unchanged (RFC 6901 unescaping cannot produce a protected name; every operation touches the root only at its first token).",
+        "technique": "Coq proof (frame theorem) + differential correspondence",
+    },
+    "C14": {
+        "props": "theories/Props/C14.v",
+        "agree": ["theories/Agree/AgreeTables.v"],
+        "trusted_base": COMMON_TB + [
+            "encoding/json Marshal/Unmarshal of patches and documents (byte round trip) is exercised, not modelled",
+        ],
+        "assumptions": ["class: no id, non-empty key/service/aka lists, ordinary member names"],
+        "rule": "documents of the class (and outside it: id, empty lists, null lists) -> PatchesFromDocument -> every patch validated, serialised and parsed back (action/value accessors compared) -> applied to the empty document -> compared with the input; bytes lacking action/value; the eight constructors on valid input incl. 50-character ids.",
+        "clauses": {"1": "class document refused", "3": "document with id accepted", "4": "round trip does not reproduce the document", "5": "constructed patch fails validation",
+                    "6": "patch bytes do not round-trip", "7": "patches differ from the model", "8": "FromBytes verdict", "10": "constructor output fails validation"},
+        "level_text": "Refusal of documents with an id, rejection of bytes lacking action/value and accessor agreement proved; the document->patches->document round trip is proved for a concrete class document and checked by correspondence on generated documents (general theorem: partial).",
+        "technique": "Coq proof (partial) + differential correspondence",
+    },
     "C13": {
         "props": "theories/Props/C13.v",
         "agree": ["theories/Agree/AgreeTables.v"],
